@@ -2950,16 +2950,21 @@ class NetCDFRead(IORead):
             if parsed_interior_ring:
                 interior_ring = parsed_interior_ring[0]
                 part_dimension = g["variable_dimensions"][interior_ring][0]
+
+                # Record that this netCDF interor ring variable spans
+                # a compressed dimension. (Do this before creating the
+                # interior ring variable, so that its data are
+                # uncompressed even if the interior ring variable of
+                # another geometry container, that spans the same
+                # dimension, has already been recorded.)
+                g["compression"][indexed_sample_dimension].setdefault(
+                    "netCDF_variables", set()
+                ).update(parsed_interior_ring)
+
                 i_r = self._create_InteriorRing(
                     ncvar=interior_ring, ncdim=part_dimension
                 )
                 g["geometries"][geometry_ncvar]["interior_ring"] = i_r
-
-                # Record that this netCDF interor ring variable spans
-                # a compressed dimension
-                g["compression"][indexed_sample_dimension].setdefault(
-                    "netCDF_variables", set()
-                ).update(parsed_interior_ring)
 
                 # Do not attempt to create a field from an
                 # interior ring variable
